@@ -3,8 +3,13 @@
 package mgmt
 
 import (
+	"fmt"
+
 	"github.com/named-data/ndnd/fw/face"
+	enc "github.com/named-data/ndnd/std/encoding"
 	basic_engine "github.com/named-data/ndnd/std/engine/basic"
+	ndn_mgmt "github.com/named-data/ndnd/std/ndn/mgmt_2022"
+	spec "github.com/named-data/ndnd/std/ndn/spec_2022"
 )
 
 // VerifNewReadvertiser builds the real NLSR readvertiser on a management thread object that is
@@ -16,4 +21,69 @@ func VerifNewReadvertiser() (*NlsrReadvertiser, *face.InternalTransport) {
 	m.timer = basic_engine.NewTimer()
 	m.transport = face.MakeInternalTransport()
 	return NewNlsrReadvertiser(m), m.transport
+}
+
+// VerifReadvertised decodes the command Interests the readvertiser has sent to NLSR so far, in the
+// order they were sent: "<verb> <prefix> origin=<o> cost=<c>" (verb = register / unregister, the
+// prefix from the ControlParameters in the command name, origin and cost from the application
+// parameters; "-" = absent). The frames stay in the queue.
+func VerifReadvertised(t *face.InternalTransport) (out []VerifCmd) {
+	for _, frame := range t.VerifPeekSent() {
+		c := VerifCmd{Verb: "undecodable", Prefix: "?"}
+		func() {
+			pkt, _, err := spec.ReadPacket(enc.NewBufferReader(frame))
+			if err != nil || pkt.LpPacket == nil {
+				return
+			}
+			inner, _, err := spec.ReadPacket(enc.NewWireReader(pkt.LpPacket.Fragment))
+			if err != nil || inner.Interest == nil {
+				return
+			}
+			name := inner.Interest.NameV
+			if len(name) < 5 {
+				c.Verb = "short name " + name.String()
+				return
+			}
+			c.Verb = name[:4].String()
+			if len(name) >= 4 && name[:3].String() == "/localhost/nlsr/rib" {
+				c.Verb = name[3].String()
+			}
+			if cp, err := ndn_mgmt.ParseControlParameters(enc.NewBufferReader(name[4].Val), true); err == nil && cp.Val != nil && cp.Val.Name != nil {
+				c.Prefix = cp.Val.Name.String()
+			}
+			c.Args = "origin=- cost=-"
+			if ap := inner.Interest.AppParam(); ap != nil {
+				if a, err := ndn_mgmt.ParseControlArgs(enc.NewWireReader(ap), true); err == nil {
+					o, cost, n := "-", "-", "-"
+					if a.Origin != nil {
+						o = fmt.Sprint(*a.Origin)
+					}
+					if a.Cost != nil {
+						cost = fmt.Sprint(*a.Cost)
+					}
+					if a.Name != nil {
+						n = a.Name.String()
+					}
+					c.Args = "origin=" + o + " cost=" + cost
+					if n != c.Prefix {
+						c.Args += " name-in-parameters=" + n
+					}
+				} else {
+					c.Args = "parameters undecodable"
+				}
+			}
+		}()
+		out = append(out, c)
+	}
+	return out
+}
+
+// VerifCmd is one readvertised command.
+type VerifCmd struct{ Verb, Prefix, Args string }
+
+// VerifAdvertisedCount is the readvertiser's own count of advertised routes of a prefix.
+func (r *NlsrReadvertiser) VerifAdvertisedCount(name enc.Name) int {
+	r.mutex.Lock()
+	defer r.mutex.Unlock()
+	return r.advertised[name.Hash()]
 }
